@@ -128,8 +128,9 @@ section
 key of each lookup table lies exactly the value the owning session's rules denote; nothing under any other key). The
 envelope `EnvOK` is the one of the property: a session that an establishment stores has a SEID and match keys no stored
 session has (unambiguous rule sets; C07 gives the SEID part per association). Session Modifications that carry Update FAR IEs only
-(handover, idle / active transitions, action changes) are inside the theorem, for sessions whose session-QER marking is stable;
-modifications that create / update / remove PDRs or QERs are outside it (open findings: key-changing Update PDR, QER relabelling)
+(handover, idle / active transitions, action changes) or Remove PDR / FAR / QER IEs only are inside the theorem, for sessions whose
+session-QER marking is stable (and, for removals, whose rules have pairwise different keys);
+modifications that create or update PDRs or QERs are outside it (open findings: key-changing Update PDR, QER relabelling)
 and stay decided per observed history. -/
 
 theorem image_after_establishment (cfg : Cfg) (w : World) (a lseid : Nat) (r : EstReq) (hI : Inv cfg w)
@@ -151,6 +152,13 @@ theorem image_after_far_update (cfg : Cfg) (w : World) (a : Nat) (r : ModReq) (s
     (h : (w.conn a).sessions.find? (·.lseid = r.seid) = some s0)
     (hstable : markSessionQer s0.pdrs s0.qers = (s0.qers, s0.pdrs))
     (hwf : ∀ q ∈ s0.fars, q.fseID = s0.lseid) : Inv cfg (modify cfg w a r).world := modFar_inv cfg w a r s0 hI hr h hstable hwf
+
+/-- a modification that only removes rules (Remove PDR / FAR / QER) — accepted, or refused because an ID is unknown — deletes the entries of
+the removed rules and nothing else: the tables stay the image of the store, for a session whose rules have pairwise different keys -/
+theorem image_after_removal (cfg : Cfg) (w : World) (a : Nat) (r : ModReq) (s0 : Session) (hI : Inv cfg w) (hr : RemOnly r)
+    (h : (w.conn a).sessions.find? (·.lseid = r.seid) = some s0)
+    (hstable : markSessionQer s0.pdrs s0.qers = (s0.qers, s0.pdrs)) (hnd : SelfNodup cfg s0) :
+    Inv cfg (modify cfg w a r).world := modRem_inv cfg w a r s0 hI hr h hstable hnd
 
 /-- what `image_after_far_update` asks of the stored FARs is an invariant, not an assumption: along every history every stored FAR carries
 the SEID of its session (`parseFAR` writes it, `UpdateFAR` keeps it) -/
@@ -188,6 +196,17 @@ example : FarOnly { seid := 77, updateFars := [{ exF2 with fwd := some { dst := 
     (∀ s0 ∈ (exW1.conn 0).sessions, markSessionQer s0.pdrs s0.qers = (s0.qers, s0.pdrs)) := by
   refine ⟨⟨rfl, rfl, rfl, rfl, rfl, rfl, rfl, rfl⟩, ?_⟩
   decide +kernel
+-- … and so is the removal of its downlink rule: the session's keys are pairwise different
+example : RemOnly { seid := 77, removePdrs := [2], removeFars := [2] } ∧ (∀ s0 ∈ (exW1.conn 0).sessions, SelfNodup exCfg s0) := by
+  refine ⟨⟨rfl, rfl, rfl, rfl, rfl, rfl⟩, ?_⟩
+  intro s0 hs0 X
+  have : ∀ s ∈ (exW1.conn 0).sessions, (s.keysOf exCfg .pdr).Nodup ∧ (s.keysOf exCfg .far).Nodup ∧ (s.keysOf exCfg .app).Nodup ∧ (s.keysOf exCfg .sess).Nodup := by
+    decide +kernel
+  cases X
+  · exact (this s0 hs0).1
+  · exact (this s0 hs0).2.1
+  · exact (this s0 hs0).2.2.1
+  · exact (this s0 hs0).2.2.2
 example : (Agent.establish exCfg exW1 0 78 exReq2).2.cause = 1 ∧ (Agent.establish exCfg exW1 0 78 exReq2).1.tables.pdr.length = 4 := by decide +kernel
 example : (allSessions exW1).length = 1 := by decide +kernel
 example : ∀ s, newSession exCfg exW1 0 78 exReq2 = some s → ∀ s' ∈ allSessions exW1, Disj exCfg s s' := by
